@@ -69,10 +69,16 @@ def routing_obligations(ctx, rec):
             else:
                 ctx.prove(Or(*[And(_abs(r[0]) == q, r[1] == p) for r in rows]), 'C10:order-has-declared-qty-and-price', {'seq': info['seq'], 'kind': key})
                 better = (p < cur) if od.side == 'buy' else (p > cur)
+                # preferred counterexamples sit well inside a region (the 0.015% band around 100 is narrower than the 1/64 lattice,
+                # so a model such as cur + 1e-17 would be all the solver offers and would not survive the binary64 replay)
+                gap = _abs(p - cur)
+                sturdy = And(gap > cur * 0.00004, Or(gap < cur * 0.00011, gap > cur * 0.0002))
                 if od.type == 'LIMIT':
-                    ctx.prove(And(Not(near(p, cur)), better), 'C10:entry-type-follows-price-relation', {'seq': info['seq'], 'type': od.type})
+                    ctx.prove(And(Not(near(p, cur)), better), 'C10:entry-type-follows-price-relation', {'seq': info['seq'], 'type': od.type},
+                              witness=sturdy)
                 else:
-                    ctx.prove(And(Not(near(p, cur)), Not(better)), 'C10:entry-type-follows-price-relation', {'seq': info['seq'], 'type': od.type})
+                    ctx.prove(And(Not(near(p, cur)), Not(better)), 'C10:entry-type-follows-price-relation', {'seq': info['seq'], 'type': od.type},
+                              witness=sturdy)
                 ctx.event('entry-' + od.type)
             ctx.prove(od.reduce_only is False and od.side == key, 'C10:entry-side-and-not-reduce-only', {'seq': info['seq']})
         else:
@@ -272,6 +278,7 @@ def _jobs(tier):
         jobs.append(Job('sess_' + '_'.join(str(v) for v in kw.values()), h_session, kw, {'max_decisions': 4000}))
     if tier == 'quick':
         add(n=3, kind='T1', side='long', exch='futures')
+        add(n=3, kind='T1', side='short', exch='futures')   # the short mirror of the symbolic-priced entry (seed C10e)
         add(n=3, kind='T4', side='short', exch='futures')
         add(n=3, kind='T6', side='long', exch='futures', cancel=False)
         add(n=3, kind='T7', side='long', exch='futures')
